@@ -104,7 +104,11 @@ Fixpoint script_spec_from (r : ref) (szb : Z) (ops : list sop) (obs : list (bool
   end.
 
 (* [o0] after creation, [obs] after each operation, [fin] = the pool is done after every
-   context has been ended, [leak] = its goroutine is still there after that. *)
+   context has been ended, [leak] = "the pool's watcher goroutine ends with it" was seen to fail:
+   at some look that found the pool's context done - after creation, after any operation (a
+   Cancel while members are still live or never end at all, the end of the last member, ...) or
+   after every context had been ended - the pool's goroutine was still there when the liveness
+   deadline expired. *)
 Definition script_spec (pre ctxs : list Z) (ops : list sop) (o0 : bool * Z)
            (obs : list (bool * Z)) (fin leak : bool) : Prop :=
   obs_spec None (ref_new pre ctxs) o0 /\
